@@ -41,7 +41,7 @@ CFG = {
     theorems=[P+"C07", P+"C07_empty_local", P+"C07_histories"],
     text="Theorems: under the span condition every peer entry the local tree lacks or holds with another digest lies in a returned range (soundness of every consistent mark via Merkle injectivity + contiguity of sub-pages; the whole peer span is marked inconsistent at the first iteration; reduce keeps bad minus good); an empty replica obtains the whole span.",
     assumptions=[A_TOTAL, A_LVL, A_CF, A_MODEL]),
- "C08": dict(streams=S("dsmall","drand","tsmall","tdeep","dwide","tbig"), level="proof",
+ "C08": dict(streams=S("dsmall","drand","tsmall","tdeep","dwide","tbig","twide"), level="proof",
     theorems=[P+"C08", P+"C08_histories", P+"C08_empty_peer"],
     text="Theorems: hashed trees with equal content diff to nothing in both directions, for any pair of histories reaching that content; a diff against an empty peer is empty for any local list.",
     assumptions=[A_TOTAL, A_LVL, A_MODEL]),
@@ -81,7 +81,9 @@ CFG = {
     theorems=[P+"C17_iter", P+"C17_stop", P+"C17_stop_prefix", P+"C17_protocol_page", P+"C17_protocol_node", P+"C17_protocol"],
     text="Theorems (every tree, every visitor, every stop index): the node iterator yields exactly the visit_node sequence; a visitor sees exactly the full callback sequence cut after the first false; the nesting protocol is the (6-line) definition of the trace, tied to the code by comparing every callback sequence incl. early stops, and checked independently by a grammar parser on the implementation side.",
     assumptions=[A_MODEL]),
- "C18": dict(streams=[dict(name="tcfg", profiles=["debug","release"], features=["","mst_default","mst_all"]), dict(name="tclone")], level="proof",
+ "C18": dict(streams=[dict(name="tcfg", profiles=["debug","release"], features=["","mst_default","mst_all"]), dict(name="tclone"),
+      # the feature-gated call sites (tracing macros in diff.rs / tree.rs / page.rs, Display impls) sit on the upsert, hash and diff paths:
+      dict(name="tmid", features=["mst_all"]), dict(name="drand", profiles=["debug","release"], features=["mst_all"]), dict(name="lrand", features=["mst_all"]), dict(name="srand", features=["mst_all"])], level="proof",
     theorems=[P+"C18_base_content", P+"C18_generic", P+"C18_constructors", P+"C18_api_constructors", P+"C18_api_interchangeable", P+"C18_api_three_constructors", P+"C18_api_hash_framing"],
     text="PARTIAL. Theorems: every property theorem is universally quantified over key type, digest types, level function (hasher x base) and page hasher; the base changes only the shape, never the content; equal configurations agree. The construction layer is modelled (Model/Api.lean: Builder and its setters, build, default(), new_with_hasher, Clone/clone_from, the stored hasher and base, SipHasher::default()/new(seed) over the std Hash byte streams of the key/value types, upsert(key,value) computing digests and level) and proved to refine tree-level histories: trees storing the same hasher and base, however constructed, are interchangeable under any two API histories with the same last value per key (C18_api_interchangeable). Decided by correspondence only: cargo feature sets and build profiles (tcfg stream across 3 feature sets x 2 profiles: bases, widths, key kinds, default/seeded/custom hashers, all constructors, both builder orders, clone and clone_from between differently configured trees, the digests of the stored hasher compared with the model's).",
     assumptions=[A_TOTAL, A_LVL, A_MODEL, "what std::hash::Hash writes for Vec<u8>/[u8;N]/String (length prefix / 0xff terminator) is recorded in Model/Api.lean and tied by the hdig lines", "cargo features / build profiles are decided by correspondence only"]),
